@@ -530,17 +530,18 @@ end
 
 /-! ### time_point
 
-`Opm::time_point` counts milliseconds (`duration<int64_t, ratio<1,1000>>`), but
-`Packing<false,time_point>` writes `TimeService::to_time_t(data)` — `duration_cast<seconds>` —
-and reads back `from_time_t`.  Modelled for times at or after the epoch. -/
+`Opm::time_point` counts milliseconds in an `int64_t` (`duration<int64_t, ratio<1,1000>>`).
+`Packing<false,time_point>` writes that tick count as one 8-byte integer (two's complement) and
+reads it back (since fix e3efc3a5b; before, it wrote `time_t`, i.e. whole seconds). -/
 
-def timeToTimeT (ms : Nat) : Nat := ms / 1000
-def timeFromTimeT (s : Nat) : Nat := s * 1000
-def packTime (ms : Nat) : Bytes := le 8 (timeToTimeT ms)
-def unpackTime (bs : Bytes) : Except Err (Nat × Bytes) :=
+def two64 : Int := 18446744073709551616
+def two63 : Int := 9223372036854775808
+
+def packTime (ms : Int) : Bytes := le 8 (ms % two64).toNat
+def unpackTime (bs : Bytes) : Except Err (Int × Bytes) :=
   match rdNat 8 bs with
   | .error e => .error e
-  | .ok (s, r) => .ok (timeFromTimeT s, r)
+  | .ok (n, r) => .ok (if (n : Int) < two63 then (n : Int) else (n : Int) - two64, r)
 
 /-- `Serializer::pack(x)` then `unpack(y)` with `y` fresh: the object read back and the
 final `position()`. -/
